@@ -29,7 +29,7 @@ DATE_LIKE = ["2001-01-01", "2001-366", "2001-001", "12:00", "12:00:60",
              "2001-01-01T12:00", "12:00:00.5Z", "12:00Z", "2001-01", "1:00",
              "2001-01-01T12:00:60", "12:00+01", "12:00-07:30", "2001-01-01Z"]
 SPECIAL = ["", " ", "  ", "a b", " lead", "trail ", "a  b", "a\tb", "a\nb",
-           "a\r\nb", "a-\nb", "a -\n b", "it's", 'say "hi"', "both ' and \"",
+           "a\r\nb", "a-\nb", "a -\n b", "a-\r\n b", "a-\n\n  b", "pre-\r\n\r\n post", "it's", 'say "hi"', "both ' and \"",
            "/* c */", "a/*b", "*/", "# hash", "a#b", "a=b", "a;b", "a,b", "(a)",
            "{a}", "<m>", "a&b", "a+b", "+a", "a-b", "a-", "-", "--", "a_", "_a",
            "a.b", "a:b", "^ptr", "a%b", "a~b", "a|b", "a!b", "[a]", "\\n",
@@ -59,7 +59,11 @@ def strings(dialect):
     dashy = st.lists(st.sampled_from(["pre-", "post-", "-", "2-", "alpha", "beta", "x-",
                                       "long-word-", "N/A", "end-", "a", "xxxxxxxxxxxx-",
                                       "--", "-x"]),
-                     min_size=3, max_size=22).map(" ".join)
+                     min_size=3, max_size=22)
+    seps = st.lists(st.sampled_from([" ", " ", " ", "  ", "\t", " \t", "   "]),
+                    min_size=22, max_size=22)
+    dashy = st.tuples(dashy, seps).map(
+        lambda t: "".join(w + s for w, s in zip(t[0], t[1])).rstrip(" \t"))
     return st.one_of(
         st.sampled_from(pool),
         st.sampled_from(pool),
@@ -100,7 +104,8 @@ def names(dialect):
 
 @functools.lru_cache(maxsize=None)
 def block_names():
-    return st.one_of(identifiers(), st.sampled_from(["g", "obj", "Image", "IMAGE"]))
+    return st.one_of(identifiers(), st.sampled_from(["g", "obj", "Image", "IMAGE"]),
+                     st.sampled_from(["g", "G", "x-", "a.b", "blk-1"]))
 
 
 @functools.lru_cache(maxsize=None)
